@@ -18,8 +18,8 @@ func init() {
 		Technique: "table agreement (HopHeaders / reqWriteExcludeHeader against the RFC 7230 list), dominance of hopByHopHeaderRemove over clusterInvoke/RoundTrip on the same request object, back-edge guard census of the removal loop, who-may-write census of Request.OutRequest, backward value flow from Header.Del to the Connection header value",
 		Meta: core.Meta{
 			Level:       "other",
-			Explanation: "Decides: (a) each of Connection, Keep-Alive, Proxy-Authenticate, Proxy-Authorization, Te, Trailer, Transfer-Encoding, Upgrade is, in canonical MIME form, an element of bfe_basic.HopHeaders or a true key of bfe_http.reqWriteExcludeHeader; Request.write emits req.Header only through WriteSubset with that exclude map and Header.sortedKeyValues appends an entry only under !exclude[key]; (b) in ReverseProxy.ServeHTTP a call hopByHopHeaderRemove(outreq, …) dominates every clusterInvoke call, outreq is the object stored in basicReq.OutRequest, the struct copy *outreq = *req happens before the removal, Request.OutRequest has no other writer in the program, clusterInvoke has no other caller, and every RoundTripper.RoundTrip call of bfe_server sends request.OutRequest; (c) inside hopByHopHeaderRemove the loop ranges over bfe_basic.HopHeaders, Header.Del is applied to outreq.Header with the loop element, and an iteration can skip the Del only when outreq.Header.Get(element) == \"\" or when element == \"Te\" and the value == \"trailers\" (exactly); (d) some Header.Del on the outgoing header takes a key that flows from the Connection header's value through a comma split (Connection-listed fields). Not covered: headers re-added by modules between the removal and RoundTrip, non-canonical keys inserted into the map directly, the outgoing Trailer/Transfer-Encoding lines that Request.write generates itself for the request body, upgrade (websocket) requests, backends spoken to through the HTTP/2 or FastCGI transports (they do not use reqWriteExcludeHeader).",
-			RuleText:    "obligations = one per required header name, one per clusterInvoke/RoundTrip call site, one per writer of Request.OutRequest, one per back edge of the removal loop that bypasses Del, the Del target/key, the exclude-map use in Request.write, the Connection-token flow",
+			Explanation: "Decides: (a) each of Connection, Keep-Alive, Proxy-Authenticate, Proxy-Authorization, Te, Trailer, Transfer-Encoding, Upgrade is, in canonical MIME form, an element of bfe_basic.HopHeaders or a true key of bfe_http.reqWriteExcludeHeader; Request.write emits req.Header only through WriteSubset with that exclude map and Header.sortedKeyValues appends an entry only under !exclude[key]; (b) in ReverseProxy.ServeHTTP a call hopByHopHeaderRemove(outreq, …) dominates every clusterInvoke call, outreq is the object stored in basicReq.OutRequest, the struct copy *outreq = *req happens before the removal, Request.OutRequest has no other writer in the program, clusterInvoke has no other caller, and every RoundTripper.RoundTrip call of bfe_server sends request.OutRequest; (c) inside hopByHopHeaderRemove the loop ranges over bfe_basic.HopHeaders, Header.Del is applied to outreq.Header with the loop element, and an iteration can skip the Del only when outreq.Header.Get(element) == \"\" or when element == \"Te\" and the value == \"trailers\" (exactly); every path through hopByHopHeaderRemove enters that loop (an early return is accepted only under `outgoing header empty`) and the loop is left only at its header, i.e. after the whole table; (d) some Header.Del on the outgoing header takes a key that flows from the Connection header's value through a comma split (Connection-listed fields). Not covered: headers re-added by modules between the removal and RoundTrip, non-canonical keys inserted into the map directly, the outgoing Trailer/Transfer-Encoding lines that Request.write generates itself for the request body, upgrade (websocket) requests, backends spoken to through the HTTP/2 or FastCGI transports (they do not use reqWriteExcludeHeader).",
+			RuleText:    "obligations = one per required header name, one per clusterInvoke/RoundTrip call site, one per writer of Request.OutRequest, one per back edge of the removal loop that bypasses Del, the loop-bypass and early-exit queries per removal loop, the Del target/key, the exclude-map use in Request.write, the Connection-token flow",
 			Assumptions: []string{"bfe_http.Header.Get/Del canonicalise their key (textproto.MIMEHeader), so table entries are compared in canonical form", "header maps hold canonical keys (true for headers parsed by bfe_http.ReadRequest)"},
 		},
 		Run: runC26,
@@ -37,6 +37,9 @@ func init() {
 			{Name: "del-on-client-header", File: "bfe_server/reverseproxy.go", Old: "		outreq.Header.Del(h)\n	}\n}", New: "		req.Header.Del(h)\n	}\n}", Expect: "hop-del"},
 			{Name: "write-ignores-exclude", File: "bfe_http/request.go", Old: "	err = req.Header.WriteSubset(w, reqWriteExcludeHeader)", New: "	err = req.Header.WriteSubset(w, nil)", Expect: "exclude-used"},
 			{Name: "exclude-not-honoured", File: "bfe_http/header.go", Old: "		if !exclude[k] {\n			kvs = append(kvs, keyValues{k, vv})\n		}\n	}\n	hs.kvs = kvs", New: "		if !exclude[k] || len(vv) > 1 {\n			kvs = append(kvs, keyValues{k, vv})\n		}\n	}\n	hs.kvs = kvs", Expect: "exclude-honoured"},
+			{Name: "removal-skipped-for-closing-requests", File: "bfe_server/reverseproxy.go", Old: "	copiedHeaders := false\n	for _, h := range bfe_basic.HopHeaders {", New: "	copiedHeaders := false\n	if req.Close {\n		return\n	}\n	for _, h := range bfe_basic.HopHeaders {", Expect: "hop-always|"},
+			{Name: "removal-stops-at-first-hit", File: "bfe_server/reverseproxy.go", Old: "		outreq.Header.Del(h)\n	}\n}", New: "		outreq.Header.Del(h)\n		if h == \"Connection\" {\n			break\n		}\n	}\n}", Expect: "hop-always|"},
+			{Name: "silent-empty-header-shortcut", Silent: true, File: "bfe_server/reverseproxy.go", Old: "	copiedHeaders := false\n	for _, h := range bfe_basic.HopHeaders {", New: "	copiedHeaders := false\n	if len(outreq.Header) == 0 {\n		return\n	}\n	for _, h := range bfe_basic.HopHeaders {"},
 			{Name: "silent-rename-and-log", Silent: true, File: "bfe_server/reverseproxy.go", Old: "		hv := outreq.Header.Get(h)\n		if hv == \"\" {\n			continue\n		}\n\n		if h == \"Te\" && hv == \"trailers\" {", New: "		val := outreq.Header.Get(h)\n		if len(val) == 0 {\n			continue\n		}\n		log.Logger.Debug(\"hop header %s\", h)\n		hv := val\n		if hv == \"trailers\" && h == \"Te\" {"},
 		},
 	})
@@ -367,6 +370,45 @@ func runC26(c *core.Ctx) {
 			}
 		}
 		c.Min("hop-skip", 1)
+		// the removal is unconditional: no way through the function that bypasses
+		// the loop, and the loop is left only when the table is exhausted
+		emptyHeader := func(f h1bFact) bool {
+			isLenHdr := func(v ssa.Value) bool {
+				call, ok := core.StripConv(v).(*ssa.Call)
+				if !ok || len(call.Call.Args) != 1 {
+					return false
+				}
+				b, ok := call.Call.Value.(*ssa.Builtin)
+				return ok && b.Name() == "len" && onOut(call.Call.Args[0])
+			}
+			isNilK := func(v ssa.Value) bool { k, ok := v.(*ssa.Const); return ok && k.Value == nil }
+			return h1bEq(f, isLenHdr, h1bIsInt(0)) || h1bEq(f, onOut, isNilK)
+		}
+		for i, d := range hopDels {
+			header, body := c24NaturalLoop(d.Block())
+			if header == nil {
+				continue // reported as hop-skip loop-shape
+			}
+			key := fmt.Sprintf("hopByHopHeaderRemove:del#%d:", i+1)
+			bad := h1bReach(remove, nil, func(x ssa.Instruction) bool { return x.Block() == header }, emptyHeader, core.IsExit)
+			c.Check("hop-always", key+"no-bypass", d.Pos(), bad == nil,
+				"hopByHopHeaderRemove can return without entering the loop over bfe_basic.HopHeaders (an early exit that is not `the outgoing header is empty`): for the requests taking that exit every hop-by-hop field of the client is forwarded to the backend")
+			var early []string
+			for b := range body {
+				if b == header {
+					continue
+				}
+				for _, s := range b.Succs {
+					if !body[s] {
+						early = append(early, h1bJoinFacts(h1bFactsOnEdge(b, s)))
+					}
+				}
+			}
+			sort.Strings(early)
+			c.Check("hop-always", key+"whole-table", d.Pos(), len(early) == 0,
+				"the loop over bfe_basic.HopHeaders is left from inside its body (break / return under "+strings.Join(early, " | ")+"): the table entries after that element are never removed from the outgoing request")
+		}
+		c.Min("hop-always", 2)
 	}
 
 	// (d) Connection-listed fields
